@@ -20,7 +20,21 @@ def check_case(ctx, cs):
     p = c["p"]
     op = o["op"]
     tags = ["kind=" + c["kind"], "p=%d" % p]
-    if op == "eval":
+    if op == "span":
+        U = fl(frv(c["U"]))
+        u = float(fr(o["u"]))
+        nc = o["nc"]
+        tg = tags + (["on_knot"] if o["mult"] > 0 else [])
+        small = {"p": p, "U": c["U"], "u": o["u"]}
+        ctx.count(("span", p, tuple(map(tuple, c["U"])), tuple(o["u"])))
+        for name, f in (("helpers.find_span_linear", helpers.find_span_linear), ("helpers.find_span_binsearch", helpers.find_span_binsearch)):
+            ok, r = _call(ctx, name, tg, small, f, p, U, nc, u)
+            if ok and r != o["span"]:
+                ctx.violate(name, tg, small, {"expected_span": o["span"], "got": r})
+        ok, r = _call(ctx, "helpers.find_multiplicity", tg, small, helpers.find_multiplicity, u, U)
+        if ok and r != o["mult"]:
+            ctx.violate("helpers.find_multiplicity", tg, small, {"expected": o["mult"], "got": r})
+    elif op == "eval":
         U = fl(frv(c["U"]))
         u = float(fr(o["u"]))
         nc = o["nc"]
@@ -128,7 +142,7 @@ def run(ctx):
     for tag, cs in res.cases:
         ops[cs["out"]["op"]] = ops.get(cs["out"]["op"], 0) + 1
         check_case(ctx, cs)
-    for need in ("eval", "generate", "normalize", "check"):
+    for need in ("eval", "span", "generate", "normalize", "check"):
         if not ops.get(need):
             raise core.MachineryError("vacuous model: action %s never taken" % need)
     ctx.traces = len(res.cases)
